@@ -495,8 +495,16 @@ package nfs
 // allocators are built from the recovered bitmaps before the first
 // transaction (makeRootDir) runs.
 //@ spec (*Nfs).makeRootDir(nfs)
-//@   assume
+//@   props C01 C04 C15 C11
 //@   requires [R4-state] nfs != nil && fsInv(nfs.fsstate) @C01
+//@   entryassumes [boot-formatted] allocInv()
+//@   entryassumes [boot-empty-cache] forall i uint64 :: !dirtyinum[i]
+// boot: the single-threaded token (held[1], assumed at MakeNfs entry for the unlocked reads of
+// the root inode) is dropped here: the first transaction takes the root inode's lock like any other
+//@   ghostset held = empty
+// (the commit of the two-block root directory transaction is assumed to fit the journal)
+//@   panic_assumed "makeRootDir"
+//@   ensures [K4-rootdir-durable] lastst == 1 && noLocks() @C01
 //@   modifies $TXMODS, $FILEMODS, $DIRMODS, $SHRINKMODS, dnames
 
 //@ spec MakeNfs(d)
@@ -518,3 +526,23 @@ package nfs
 //@   ensures [W4-instance-verf] clockres == 1 @C07
 //@   loop 0 invariant i <= 8
 //@   loop 0 decreases 8 - i
+
+// H4 (C08): MOUNT hands out the root handle (inode 1, generation 1) and nothing else.
+//@ spec (*Nfs).MOUNTPROC3_MNT(nfs, args)
+//@   props C08 C11
+//@   allocates nfstypes.Mountres3, []uint8
+//@   ensures [H4-mount-root] result.Fhs_status == 0 && len(result.Mountinfo.Fhandle) == 16 && le64(result.Mountinfo.Fhandle, 0) == 1 && le64(result.Mountinfo.Fhandle, 8) == 1 @C08
+
+// C06-D5 / C14-P3: shutdown and crash drain the background shrinker under its mutex before the
+// journal is shut down, and leave every lock of this goroutine as it was.
+//@ spec (*Nfs).ShutdownNfs(nfs)
+//@   props C06 C14
+//@   requires rpcPre(nfs)
+//@   modifies muheld, shrinker.ShrinkerSt.nthread, shrinker.ShrinkerSt.crash
+//@   ensures [D5-drained] nfs.shrinkst.nthread == 0 && muheld == old(muheld) @C06 @C14
+
+//@ spec (*Nfs).Crash(nfs)
+//@   props C06 C14
+//@   requires rpcPre(nfs)
+//@   modifies muheld, shrinker.ShrinkerSt.nthread, shrinker.ShrinkerSt.crash
+//@   ensures [D5-drained] nfs.shrinkst.nthread == 0 && muheld == old(muheld) @C06 @C14
